@@ -25,8 +25,9 @@ type Net struct {
 	socks    []*Socket
 	conns    []*Conn
 	lnSeq    int
-	FileErr  func(l *Listener) error // fault hook: File() fails
-	AcceptOK func(l *Listener) bool  // optional veto for accept assignment
+	FileErr  func(l *Listener) error    // fault hook: File() fails
+	FileSub  func(l *Listener) *os.File // fault hook: File() hands out this file instead (one net.FileListener cannot use)
+	AcceptOK func(l *Listener) bool     // optional veto for accept assignment
 	// DefaultWindow is the per-direction byte window (0 = unbounded).
 	DefaultWindow int
 	// NextSrc, when set, is the source address of the next Dial.
@@ -158,6 +159,11 @@ func (l *Listener) File() (*os.File, error) {
 	if l.n.FileErr != nil {
 		if err := l.n.FileErr(l); err != nil {
 			return nil, err
+		}
+	}
+	if l.n.FileSub != nil {
+		if f := l.n.FileSub(l); f != nil {
+			return f, nil
 		}
 	}
 	return l.inner.File()
